@@ -566,6 +566,9 @@ func (c *ctx) genRawStream(dir string, propCIDs []int) []M {
 		} else {
 			cid = propCIDs[c.rnd.Intn(len(propCIDs))]
 			raw = make([]int, c.rnd.Intn(4))
+			if c.rnd.Intn(4) == 0 {
+				raw = make([]int, c.rnd.Intn(15))
+			}
 			for j := range raw {
 				raw[j] = 128 + c.rnd.Intn(128) // leftovers re-parse as proprietary CIDs, never as RFU-sensitive standard payloads
 			}
@@ -626,7 +629,11 @@ func drvRegistry(c *ctx) error {
 					if c.rnd.Intn(3) > 0 {
 						cid = 128 + c.rnd.Intn(128)
 					}
-					h = append(h, M{"dir": []string{"down", "up"}[c.rnd.Intn(2)], "cid": cid, "size": c.rnd.Intn(7) - 1})
+					size := c.rnd.Intn(7) - 1
+					if c.rnd.Intn(6) == 0 { // sizes up to what FOpts can carry, just beyond, and around the one-byte boundary
+						size = c.pick(6, 7, 8, 13, 14, 15, 16, 255, 256, 257)
+					}
+					h = append(h, M{"dir": []string{"down", "up"}[c.rnd.Intn(2)], "cid": cid, "size": size})
 				}
 				hists = append(hists, M{"hist": h})
 			}
